@@ -912,7 +912,14 @@ fn format_subexpression(
                 format_unary_op(op, output)?;
             } else {
                 format_unary_op(op, output)?;
+                let inner_start = output.len();
                 format_subexpression(inner, prec, OperatorSide::Right, output, context)?;
+                // Keep apart sign characters that would otherwise merge into another token: -(-x) is not --x
+                let op_char = output[..inner_start].chars().next_back();
+                let inner_char = output[inner_start..].chars().next();
+                if op_char == inner_char && matches!(op_char, Some('+' | '-' | '&')) {
+                    output.insert(inner_start, ' ');
+                }
             }
         }
         ast::Expression::BinaryOperation(op, left, right) => {
